@@ -56,9 +56,11 @@ struct World {
     std::atomic<bool> rendezvous_failed{ false };
     tlx::ThreadPool* pool = nullptr;
     Rng* rng = nullptr;
+    bool with_init = false;                // the pool was given a per-worker initialisation callback
+    std::atomic<int> inits[64];            // calls of that callback per worker index
     bool throwing_jobs = false;            // every fifth job ends by throwing a std::runtime_error
     std::atomic<unsigned> thrown{ 0 };
-    explicit World(size_t cap) : jobs(cap) {}
+    explicit World(size_t cap) : jobs(cap) { for (auto& x : inits) x.store(0); }
 };
 
 ClosureGuard::~ClosureGuard() { pause_point(); rec->destroyed = dsched::tick(); }
@@ -138,8 +140,14 @@ static void scenario_graph(Rng& rng) {
     uint64_t dtor_call = 0, dtor_ret = 0;
     size_t ids_before_end = 0;
     {
-        std::unique_ptr<tlx::ThreadPool> pool(new tlx::ThreadPool(p));
+        // a third of the pools with a per-worker initialisation callback: once per worker index, before its first job
+        const bool with_init = rng.chance(1, 3);
+        std::unique_ptr<tlx::ThreadPool> pool(with_init
+            ? new tlx::ThreadPool(p, [&w](size_t i) { pause_point(); if (i < 64) w.inits[i].fetch_add(1, std::memory_order_relaxed); })
+            : new tlx::ThreadPool(p));
         w.pool = pool.get();
+        w.with_init = with_init;
+        if (pool->size() != p) verif::fail("C10:size", "size() = " + std::to_string(pool->size()) + " for a pool of " + std::to_string(p) + " | " + g_scenario);
         for (unsigned r = 0; r < rounds; ++r) {
             unsigned roots = (unsigned)rng.below(4);
             int depth = (int)rng.below(3);
@@ -201,6 +209,13 @@ static void scenario_graph(Rng& rng) {
     dsched::Stats st = S.end();
     verif::count("pool_scenarios");
     verif::count("jobs_that_threw", w.thrown.load());
+    if (w.with_init) {
+        for (unsigned i = 0; i < 64; ++i) {
+            int c = w.inits[i].load();
+            if (c != (i < p ? 1 : 0)) { verif::fail("C10:init-thread", "the initialisation callback ran " + std::to_string(c) + " time(s) for worker index " + std::to_string(i) + " of a pool of " + std::to_string(p) + " | " + g_scenario); break; }
+        }
+        verif::count("pools_with_init_callback");
+    }
     if (g_serial) { verif::distinct(st.hash); verif::count("schedule_steps", st.steps); verif::count("waits_that_blocked", st.cv_blocks); verif::count("notifies_without_waiter", st.notifies_without_waiter); }
     if (verif::case_failed()) return;
     size_t n = std::min(w.next.load(std::memory_order_relaxed), w.jobs.size());
